@@ -8,12 +8,127 @@ import (
 	"strings"
 )
 
+type alphabet [256]bool
+
 type Piece struct {
-	c   string // constant piece when arr == nil
-	arr *Term
-	off *Term
-	n   *Term
-	cap int
+	c     string // constant piece when arr == nil
+	arr   *Term
+	off   *Term
+	n     *Term
+	cap   int
+	alpha *alphabet // bytes a view may contain (nil: any); set by vn.StringIn, kept by slicing
+}
+
+func (p Piece) mayContain(b byte) bool {
+	if p.isConst() {
+		return strings.IndexByte(p.c, b) >= 0
+	}
+	return p.alpha == nil || p.alpha[b]
+}
+
+func isSpaceByte(b byte) bool { return b == ' ' || (b >= 9 && b <= 13) }
+
+func (p Piece) mayContainSpace() bool {
+	if p.isConst() {
+		for i := 0; i < len(p.c); i++ {
+			if isSpaceByte(p.c[i]) {
+				return true
+			}
+		}
+		return false
+	}
+	if p.alpha == nil {
+		return true
+	}
+	for _, b := range []byte{' ', 9, 10, 11, 12, 13} {
+		if p.alpha[b] {
+			return true
+		}
+	}
+	return false
+}
+
+// offsets returns the start offset of every piece (and the total length as last element),
+// built by one left fold so that equal positions are identical (hash-consed) terms.
+func (s *Str) offsets() []*Term {
+	offs := make([]*Term, len(s.p)+1)
+	o := I(0)
+	for i, p := range s.p {
+		offs[i] = o
+		if p.isConst() {
+			o = Add(o, I(int64(len(p.c))))
+		} else {
+			o = Add(o, p.n)
+		}
+	}
+	offs[len(s.p)] = o
+	return offs
+}
+
+// splitConst decomposes t into base + c.
+func splitConst(t *Term) (*Term, int64) {
+	if c, ok := t.ConstInt(); ok {
+		return nil, c
+	}
+	if t.op == "+" && len(t.args) == 2 {
+		if c, ok := t.args[1].ConstInt(); ok {
+			return t.args[0], c
+		}
+	}
+	return t, 0
+}
+
+// locate maps a position term to a cut (i,k): position = offset of piece i + k, with k > 0 only
+// inside constant pieces (normalised so that k < len of that piece). ok=false when the position
+// is not visibly on a piece boundary or inside a constant piece.
+func (s *Str) locate(offs []*Term, pos *Term) (int, int, bool) {
+	pb, pc := splitConst(pos)
+	for i := 0; i <= len(s.p); i++ {
+		ob, oc := splitConst(offs[i])
+		if ob != pb {
+			continue
+		}
+		k := pc - oc
+		if k == 0 {
+			return i, 0, true
+		}
+		if k > 0 && i < len(s.p) && s.p[i].isConst() && int(k) <= len(s.p[i].c) {
+			if int(k) == len(s.p[i].c) {
+				return i + 1, 0, true
+			}
+			return i, int(k), true
+		}
+	}
+	return 0, 0, false
+}
+
+// subRope returns the rope between two cuts (i0,k0) <= (i1,k1).
+func (s *Str) subRope(i0, k0, i1, k1 int) *Str {
+	var out []Piece
+	for i := i0; i <= i1 && i < len(s.p); i++ {
+		if i == i1 && k1 == 0 {
+			break
+		}
+		p := s.p[i]
+		if p.isConst() {
+			lo, hi := 0, len(p.c)
+			if i == i0 {
+				lo = k0
+			}
+			if i == i1 {
+				hi = k1
+			}
+			if lo < hi {
+				out = append(out, Piece{c: p.c[lo:hi]})
+			}
+		} else {
+			out = append(out, p)
+		}
+	}
+	if len(out) == 0 {
+		return emptyStr
+	}
+	return &Str{p: out}
 }
 
 func (p Piece) isConst() bool { return p.arr == nil }
@@ -139,7 +254,7 @@ func (st *State) flat(s *Str) Piece {
 		}
 	}
 	st.addDef(And(cs...))
-	f := Piece{arr: arr, off: I(0), n: off, cap: cap}
+	f := Piece{arr: arr, off: I(0), n: off, cap: cap, alpha: unionAlpha(s.p)}
 	nc := make(map[*Str]Piece, len(st.flatCache)+1)
 	for k, v := range st.flatCache {
 		nc[k] = v
@@ -147,6 +262,27 @@ func (st *State) flat(s *Str) Piece {
 	nc[s] = f
 	st.flatCache = nc
 	return f
+}
+
+func unionAlpha(ps []Piece) *alphabet {
+	var a alphabet
+	for _, p := range ps {
+		if p.isConst() {
+			for i := 0; i < len(p.c); i++ {
+				a[p.c[i]] = true
+			}
+			continue
+		}
+		if p.alpha == nil {
+			return nil
+		}
+		for b, ok := range p.alpha {
+			if ok {
+				a[b] = true
+			}
+		}
+	}
+	return &a
 }
 
 func pieceByte(p Piece, i *Term) *Term { return Select(p.arr, Add(p.off, i)) }
@@ -261,8 +397,15 @@ func (st *State) sSlice(s *Str, lo, hi *Term) *Str {
 			return s
 		}
 	}
-	// structural slicing when lo/hi are concrete and fall inside leading constant pieces is not
-	// attempted; go through the flat form.
+	// structural slicing at piece boundaries / inside constant pieces (no constraints needed)
+	if len(s.p) > 1 {
+		offs := s.offsets()
+		i0, k0, ok0 := s.locate(offs, lo)
+		i1, k1, ok1 := s.locate(offs, hi)
+		if ok0 && ok1 && (i0 < i1 || (i0 == i1 && k0 <= k1)) {
+			return s.subRope(i0, k0, i1, k1)
+		}
+	}
 	f := st.flat(s)
 	n := Sub(hi, lo)
 	if k, ok := n.ConstInt(); ok && k == 0 {
@@ -278,7 +421,7 @@ func (st *State) sSlice(s *Str, lo, hi *Term) *Str {
 	if cap <= 0 {
 		return emptyStr
 	}
-	return &Str{p: []Piece{{arr: f.arr, off: Add(f.off, lo), n: n, cap: cap}}}
+	return &Str{p: []Piece{{arr: f.arr, off: Add(f.off, lo), n: n, cap: cap, alpha: f.alpha}}}
 }
 
 // sIndexConst returns an Int term equal to strings.Index(s, needle) for a constant needle.
@@ -289,6 +432,35 @@ func (st *State) sIndexConst(s *Str, needle string) *Term {
 	m := len(needle)
 	if m == 0 {
 		return I(0)
+	}
+	if m == 1 && len(s.p) > 1 {
+		offs := s.offsets()
+		for i, p := range s.p {
+			if !p.mayContain(needle[0]) {
+				continue
+			}
+			if p.isConst() {
+				return Add(offs[i], I(int64(strings.IndexByte(p.c, needle[0]))))
+			}
+			if i == 0 {
+				break // generic on the whole string
+			}
+			rest := &Str{p: s.p[i:]}
+			r := st.sIndexConst(rest, needle)
+			return Ite(Ge(r, I(0)), Add(offs[i], r), I(-1))
+		}
+		anyMay := false
+		for _, p := range s.p {
+			if p.mayContain(needle[0]) {
+				anyMay = true
+			}
+		}
+		if !anyMay {
+			return I(-1)
+		}
+	}
+	if m == 1 && len(s.p) == 1 && !s.p[0].mayContain(needle[0]) {
+		return I(-1)
 	}
 	f := st.flat(s)
 	r := FreshVar("idx", SInt)
@@ -316,6 +488,9 @@ func (st *State) sHasPrefix(s, p *Str) *Term {
 	cp, okp := p.Const()
 	if oks && okp {
 		return B(strings.HasPrefix(cs, cp))
+	}
+	if okp && len(s.p) > 0 && s.p[0].isConst() && len(s.p[0].c) >= len(cp) {
+		return B(strings.HasPrefix(s.p[0].c, cp))
 	}
 	fs := st.flat(s)
 	if okp {
@@ -441,6 +616,9 @@ func (st *State) sTrimSpace(s *Str) *Str {
 	if c, ok := s.Const(); ok {
 		return constStr(strings.TrimSpace(c))
 	}
+	if t, ok := trimSpaceStructural(s); ok {
+		return t
+	}
 	f := st.flat(s)
 	a := FreshVar("trim_a", SInt)
 	b := FreshVar("trim_b", SInt)
@@ -455,7 +633,46 @@ func (st *State) sTrimSpace(s *Str) *Str {
 	cs = append(cs, Implies(Lt(a, f.n), And(Lt(a, b), Not(isASCIISpace(pieceByte(f, Sub(b, I(1))))))))
 	cs = append(cs, Implies(Eq(a, f.n), Eq(b, a)))
 	st.addDef(And(cs...))
-	return &Str{p: []Piece{{arr: f.arr, off: Add(f.off, a), n: Sub(b, a), cap: f.cap}}}
+	return &Str{p: []Piece{{arr: f.arr, off: Add(f.off, a), n: Sub(b, a), cap: f.cap, alpha: f.alpha}}}
+}
+
+// trimSpaceStructural trims whitespace when it can only occur in constant pieces at the ends.
+func trimSpaceStructural(s *Str) (*Str, bool) {
+	ps := append([]Piece(nil), s.p...)
+	// leading constant whitespace
+	for len(ps) > 0 && ps[0].isConst() {
+		t := strings.TrimLeft(ps[0].c, " \t\n\v\f\r")
+		if t == "" {
+			ps = ps[1:]
+			continue
+		}
+		ps[0] = Piece{c: t}
+		break
+	}
+	for len(ps) > 0 && ps[len(ps)-1].isConst() {
+		t := strings.TrimRight(ps[len(ps)-1].c, " \t\n\v\f\r")
+		if t == "" {
+			ps = ps[:len(ps)-1]
+			continue
+		}
+		ps[len(ps)-1] = Piece{c: t}
+		break
+	}
+	if len(ps) == 0 {
+		return emptyStr, true
+	}
+	// after stripping, the result is exact if no remaining piece can expose whitespace at an end:
+	// either nothing may contain whitespace at all, or both end pieces are constants
+	none := true
+	for _, p := range ps {
+		if p.mayContainSpace() {
+			none = false
+		}
+	}
+	if none || (ps[0].isConst() && ps[len(ps)-1].isConst()) {
+		return &Str{p: ps}, true
+	}
+	return nil, false
 }
 
 // sMapBytes returns a string of the same length whose bytes are fn(byte).
@@ -563,6 +780,33 @@ func (st *State) sSplitByte(s *Str, sep byte, maxSep int) []splitOutcome {
 		}
 		return []splitOutcome{{cond: tTrue, parts: parts}}
 	}
+	// structural split: the separator can only occur in constant pieces
+	structural := true
+	for _, p := range s.p {
+		if !p.isConst() && p.mayContain(sep) {
+			structural = false
+		}
+	}
+	if structural {
+		var parts []*Str
+		cur := emptyStr
+		for _, p := range s.p {
+			if !p.isConst() {
+				cur = sConcat(cur, &Str{p: []Piece{p}})
+				continue
+			}
+			segs := strings.Split(p.c, string(sep))
+			for i, seg := range segs {
+				if i > 0 {
+					parts = append(parts, cur)
+					cur = emptyStr
+				}
+				cur = sConcat(cur, constStr(seg))
+			}
+		}
+		parts = append(parts, cur)
+		return []splitOutcome{{cond: tTrue, parts: parts}}
+	}
 	f := st.flat(s)
 	// count of separators as a term
 	var outs []splitOutcome
@@ -596,7 +840,7 @@ func (st *State) sSplitByte(s *Str, sep byte, maxSep int) []splitOutcome {
 			if j < k {
 				end = pos[j]
 			}
-			parts = append(parts, &Str{p: []Piece{{arr: f.arr, off: Add(f.off, prev), n: Sub(end, prev), cap: f.cap - j}}})
+			parts = append(parts, &Str{p: []Piece{{arr: f.arr, off: Add(f.off, prev), n: Sub(end, prev), cap: f.cap - j, alpha: f.alpha}}})
 			if j < k {
 				prev = Add(pos[j], I(1))
 			}
